@@ -4,14 +4,15 @@
 """
 import copy
 import numpy as np
-from pmv import common, gen, instrument
-from pmv.oracles import georef
+from pmv import common, gen, instrument, corpus
+from pmv.oracles import georef, pulseref
 
 ID   = 'C13'
 RULE = ( 'models of 1..3 objects (plain wires with 1..200 segments over 3 decades of length, tapered wires '
          'with end 1/2/3 and random min/max, arcs, helices with all four sign combinations and tapered radii) '
          'under random sequences of keyed rotations/translations (tagged and untagged, option order shuffled) '
-         'and scalings; segment end points compared with the documented formulas evaluated independently. '
+         'and scalings; segment end points compared with the documented formulas evaluated independently; the 65 hand-made '
+         'antennas of the test directory through the same comparison. '
          'non-trivial = tapered, curved or transformed; distinct = (kinds, taper type+limits, signs, transform kinds)'
        )
 MIN_EVAL = dict (quick = 1500, thorough = 40000)
@@ -22,7 +23,7 @@ ASSUMPTIONS = ['a taper request the program does not honour (documented fall-bac
 
 def plan (tier, seed):
     n = 2400 if tier == 'quick' else 60000
-    return [dict (i = i, seed = seed) for i in range (n)]
+    return [dict (i = i, seed = seed) for i in range (n)] + corpus.plan_cases (seed, tier, quick = 1, thorough = 1)
 # end def plan
 
 def make (spec0):
@@ -142,7 +143,11 @@ def check_taper (g, obj, l, bad, scale, size = 0.0):
 # end def check_taper
 
 def check (spec0):
-    spec = spec0 if 'geo' in spec0 else make (spec0)
+    if 'corpus' in spec0:
+        # the hand-made antennas of the repository (arcs, helices, tapers, transformations per object and of the whole)
+        spec = corpus.make (spec0, 13, freq = False, sources = False)
+    else:
+        spec = spec0 if 'geo' in spec0 else make (spec0)
     before = instrument.EVALS ['compute_segments.tiling']
     # the objects are handed over through the command line or through the classes of the library (there also with the
     # container's tags computed after the whole-structure requests, or after the first object only, and with
@@ -182,8 +187,9 @@ def check (spec0):
             if t is None or t == o ['tag']:
                 scale *= f
         mon ['radius'] = mon.get ('radius', 0) + 1
-        if abs (obj.r - o ['r']) > 1e-12 * o ['r']:
-            bad ('radius', 'radius-scale', 'radius %r, expected %r after scaling' % (obj.r, o ['r']))
+        r_want = pulseref.equivalent_radius (spec, o ['tag'], o ['r'])        # (insulated wires: the documented equivalent radius)
+        if abs (obj.r - r_want) > 1e-12 * r_want:
+            bad ('radius', 'radius-scale', 'radius %r, expected %r after scaling' % (obj.r, r_want))
         ends = (np.asarray (segs [0].p1, float), np.asarray (segs [-1].p2, float))
         mon ['ends'] = mon.get ('ends', 0) + 1
         # over a ground plane wire ends closer to it than the matching tolerance (1e-3 of
